@@ -22,6 +22,9 @@ def known(prop, standin, case, what):
     E.append({"property": prop, "status": "known", "standin": standin, "case": case, "what": what})
 
 # ------------------------------------------------------------------ repaired defects (suppress nothing)
+fixed("C13", "per-object dimensionality memo", "after an in-place operator that replaces the units (q *= 2*second, q //= cm, q **= 2) a Quantity whose "
+      "dimensionality had been queried before kept reporting the old dimensionality: q.check(), q + <same units> disagreed with q.units",
+      obligation=r"facets\.plain\.quantity\.PlainQuantity\.dimensionality/post\.(dim|wf)@ret0#1", standin="c13_inplace_memo", case=r"inplace-memo:.*")
 fixed("C04", "UnitsContainer.add no longer", "UnitsContainer().add('m', 0) raised KeyError (also parse_units('meter**0'))",
       obligation=r"util\.UnitsContainer\.add/no-KeyError@\[new\._d\.pop\(key\)\]")
 fixed("C04", "__pow__ drops all entries", "UnitsContainer({'m':1})**0 kept {'m': 0}; meter**0 != dimensionless",
